@@ -15,6 +15,20 @@ COMMON_TRUST = [
     "after every finite history) is the standard meta-argument and is not a solver query",
 ]
 
+SUP = "opfython.models.supervised.SupervisedOPF."
+SUP_FILES = ["opfython/models/supervised.py", "opfython/core/heap.py", "opfython/core/subgraph.py", "opfython/core/node.py",
+             "opfython/core/opf.py", "opfython/utils/constants.py"]
+GRAPH_TRUST = [
+    "arc weights are reads of the uninterpreted DFN(features, features) / PRE(idx, idx); the hypotheses of the property "
+    "statement (finite < FLOAT_MAX, non-negative, symmetric where stated) are preconditions on them",
+    "the list of Node objects is viewed as a struct of arrays; valid because every appended element is a Node constructed "
+    "in the same function and appended once (checked by the engine at each `nodes.append`)",
+    "feature rows are opaque values (sort Feat); X[i] denotes row i (numpy basic indexing / zip iteration yields views of "
+    "the caller's rows - aliasing is the subject of C07, not modelled here)",
+    "property setters/getters of Node/Subgraph/OPF are inlined from the real source; their `raise` statements are "
+    "obligations (unreachable)",
+]
+
 PROPERTIES = {
     "C05": {
         "functions": HEAP_FUNCS,
@@ -28,6 +42,64 @@ PROPERTIES = {
             "queries, the induction principle itself is trusted",
             "`update` on a BLACK (already removed) element is outside the property's hypothesis and outside the contract",
             "termination: go_up/go_down carry decreases clauses (discharged); other functions are loop-free",
+        ],
+    },
+    "C01": {
+        "functions": [SUP + "fit", SUP + "_find_prototypes", "opfython.core.subgraph.Subgraph.__init__",
+                      "opfython.core.subgraph.Subgraph._build"] + HEAP_FUNCS,
+        "lemmas": HEAP_LEMMAS + ["inj_card"],
+        "files": SUP_FILES,
+        "bounded": "bounded.supervised",
+        "level": "proof",
+        "trusted": COMMON_TRUST + GRAPH_TRUST + [
+            "from the discharged postcondition (Bellman closure over all ordered pairs, prototypes at 0, every "
+            "non-prototype attains max(cost(pred), d) with a predecessor strictly earlier in the conquest order) to "
+            "'cost = minimum over all paths of the largest arc' is the standard two-line argument (closure gives <= every "
+            "path by induction on path length; the predecessor chain is a path attaining it); this last step is a pencil "
+            "argument, not a solver query",
+        ],
+    },
+    "C02": {
+        "functions": [SUP + "_find_prototypes", SUP + "fit", "opfython.core.subgraph.Subgraph.__init__",
+                      "opfython.core.subgraph.Subgraph._build"] + HEAP_FUNCS,
+        "lemmas": HEAP_LEMMAS + ["inj_card"],
+        "files": SUP_FILES,
+        "bounded": "bounded.supervised",
+        "level": "other",
+        "explanation": "PROVED (solver-discharged, all sizes): every function the prototype selection runs through "
+                       "(heap, Subgraph construction, _find_prototypes, fit) meets its contract; _find_prototypes returns "
+                       "with at least one prototype whenever >= 2 classes are present, changes nothing but cost/pred/status; "
+                       "fit keeps every prototype at cost 0, predecessor NIL and its own label (invariant I3). "
+                       "NOT YET PROVED: that the predecessor map left by _find_prototypes satisfies Prim's cut certificate and "
+                       "that the prototype set is exactly the set of endpoints of its bichromatic arcs - BOUNDED stand-in: the "
+                       "real fit is run on generated graphs (n <= 6, tie-heavy and distinct weights) and the prototype set is "
+                       "compared with the boundary-endpoint sets of ALL minimum spanning trees (Pruefer enumeration). "
+                       "CITED: cut property (a Prim-certified tree is an MST; unique for distinct weights).",
+        "trusted": COMMON_TRUST + GRAPH_TRUST,
+    },
+    "C03": {
+        "functions": [SUP + "predict", "opfython.core.subgraph.Subgraph.mark_nodes",
+                      "opfython.core.subgraph.Subgraph.__init__", "opfython.core.subgraph.Subgraph._build"],
+        "lemmas": [],
+        "files": SUP_FILES,
+        "bounded": "bounded.supervised",
+        "level": "proof",
+        "trusted": COMMON_TRUST + GRAPH_TRUST + [
+            "predict's precondition `fitted` is a sub-conjunction of fit's discharged postcondition (permutation sorted by "
+            "cost); the semi-supervised model inherits predict unchanged",
+            "termination of mark_nodes is not proved here (partial correctness)",
+        ],
+    },
+    "C15": {
+        "functions": ["opfython.models.semi_supervised.SemiSupervisedOPF.fit", SUP + "_find_prototypes",
+                      "opfython.core.subgraph.Subgraph.__init__", "opfython.core.subgraph.Subgraph._build"] + HEAP_FUNCS,
+        "lemmas": HEAP_LEMMAS + ["inj_card"],
+        "files": SUP_FILES + ["opfython/models/semi_supervised.py"],
+        "bounded": "bounded.supervised",
+        "level": "proof",
+        "trusted": COMMON_TRUST + GRAPH_TRUST + [
+            "the clause 'with an empty unlabeled set the result is identical to supervised training' is checked by the "
+            "bounded channel only (relational comparison of the two real fits), not by a solver query",
         ],
     },
 }
